@@ -327,14 +327,15 @@ class AbbrGen:
         rng = self.rng
         t = ''.join(rng.choice(self.text_alpha) for _ in range(rng.randint(0, 7)))
         if not self.wild and rng.random() < 0.2:
-            t += rng.choice(['"q"', "'s'", '{n}', '(p)', '[s]', 'a > b', '"<b>"', '"\\"'])
+            t += rng.choice(['"q"', "'s'", '{n}', '(p)', '[s]', 'a > b', '"<b>"', '"\\"', '(a, b)', 'f(x y)', '[u v]', '(p [q r] s)'])
         return balance_curly(t)
 
     def qval(self, q):
         rng = self.rng
         v = ''.join(rng.choice([c for c in self.text_alpha if c != q and c != '\\']) for _ in range(rng.randint(0, 5)))
         if not self.wild and rng.random() < 0.25:
-            v += rng.choice(['(x)', '[y]', '{z}', '<b>', 'a>b', '</i>', "'" if q == '"' else '"'])
+            v += rng.choice(['(x)', '[y]', '{z}', '<b>', 'a>b', '</i>', "'" if q == '"' else '"', 'f(x, y)', '(a b)', '[c, d]', '{e f}',
+                             "go('x')" if q == '"' else 'go("x")', '([k l])', '{(m n)}'])
         return v
 
     def attr(self):
